@@ -147,6 +147,10 @@ pub const ASSUME: &[&str] = &[
 ];
 
 pub fn judge(case: &PipeCase, run: &NetRun, server: &crate::l3::Server, prop: &str) -> Option<(String, String)> {
+    if run.reset && case.quit_pos().is_some() {
+        // transport reset after the server closed: responses may have been discarded by TCP
+        return None;
+    }
     if let Some(m) = &run.malformed {
         return if prop == "C11" { Some(("resp_malformed".into(), format!("response stream cannot be framed: {}", m))) } else { None };
     }
@@ -271,11 +275,29 @@ pub fn run_case(case: &PipeCase, prop: &'static str) -> CaseReport {
         f.write_to(&mut stream);
         bounds.push(stream.len());
     }
-    let cuts: Vec<usize> = match case.seg {
+    if frames.is_empty() {
+        return rep;
+    }
+    let mut cuts: Vec<usize> = match case.seg {
         0 => vec![],
         1 => bounds.clone(),
         _ => case.cuts.iter().map(|c| (*c as usize * stream.len()) >> 16).collect(),
     };
+    if let Some(q) = case.quit_pos() {
+        // Everything behind a quit travels in the same chunk as the quit and is small enough to be read
+        // by the server in one read. Otherwise the server closes with unread bytes in its socket, TCP
+        // answers with a reset and may discard responses the client has not read yet - a transport
+        // effect that would make the outcome depend on timing.
+        let qstart = if q == 0 { 0 } else { bounds[q - 1] };
+        cuts.retain(|c| *c <= qstart);
+        let mut keep = bounds[q];
+        for b in bounds.iter().skip(q + 1) {
+            if *b - bounds[q] <= 1500 {
+                keep = *b;
+            }
+        }
+        stream.truncate(keep);
+    }
     let chunks = netpipe::chunks_of(&stream, &cuts);
     let opts = ServerOpts { workers: case.workers as usize, item_limit: case.item_limit(), ..ServerOpts::default() };
     let server = match netpipe::start_server(opts) {
